@@ -253,6 +253,7 @@ func runC04(c *report.Ctx) {
 	// ---- restore scan and record codec ----------------------------------------------------------------------
 	ruleBranchKeyAgreement(c)
 	ruleByteOrder(c, []string{pkgKeystore, pkgHD, pkgSnacl}, 4)
+	ruleLayout(c, []string{"pubkey-record-key"}, 2)
 }
 
 func kindOnly(os []string) string {
